@@ -23,6 +23,7 @@ _names: list[str] = []
 _by_ext: dict[str, list[str]] = {}
 _base_cpu: dict[str, float] = {}
 _ole_obj_streams: dict[str, list[int]] = {}
+_ole_propset_streams: dict[str, list[int]] = {}
 EXT_FAMILIES = ["docx", "docm", "pptx", "pptm", "xlsx", "xlsm", "doc", "ppt", "xls", "rtf", "odt", "odp", "ods", "odg", "odf", "msg", "mbox", "eml",
                 "csv", "json", "txt", "tsv", "md", "pdf", "html", "epub", "mhtml", "zip", "tar", "tgz", "tbz2", "txz", "7z"]
 ALIASES = {"html": ["htm"], "mhtml": ["mht"], "doc": ["dot"], "docx": ["dotx"], "docm": ["dotm"], "xls": ["xlt"], "xlsx": ["xltx"], "xlsm": ["xltm"],
@@ -48,6 +49,7 @@ def warm(measure_cpu: bool = True):
         _by_ext.setdefault(ext_of(n), []).append(n)
     import sharepoint2text.cli  # noqa
     _ole_obj_streams.clear()
+    _ole_propset_streams.clear()
     for n in _names:
         if _docs[n][:8] == b"\xd0\xcf\x11\xe0\xa1\xb1\x1a\xe1":
             _ole_obj_streams[n] = _ole_streams_with_objects(n)
@@ -76,6 +78,8 @@ def _ole_streams_with_objects(name) -> list[int]:
             st.seek(0)
             if blockdev.object_offsets(data):
                 hits.append(n[0])
+            if data[:4] == b"\xfe\xff\x00\x00":
+                _ole_propset_streams.setdefault(name, []).append(n[0])
         except Exception:
             pass
         return st
@@ -129,6 +133,12 @@ def gen_case(rng: random.Random, tier: str, *, fault_free_p=0.1, s2_bias=0.5, en
                          ["u16", rng.randrange(1 << 30), rng.choice(blockdev.BIG)], ["u32", rng.randrange(1 << 30), rng.choice(blockdev.BIG)], ["empty"],
                          ["zerotail", rng.randrange(1 << 30), rng.choice([-1, 2, 4, 6, 20, 100, 600])]])
         ole = [rng.randrange(1, 7), ed]
+        if rng.random() < 0.25:
+            # property-set streams (SummaryInformation / DocumentSummaryInformation): one property gets another variant type;
+            # date and blob types are favoured (they turn a number or a string into an object of another kind)
+            ks = _ole_propset_streams.get(name) or list(range(1, 7))
+            vt = rng.choice([64, 64, 65, 71, 7]) if rng.random() < 0.5 else rng.choice(blockdev.VARIANT_TYPES)
+            ole = [rng.choice(ks), ["vt_retype", rng.randrange(1 << 16), vt]]
         if _ole_obj_streams.get(name) and rng.random() < 0.6:
             # aim at a stream that carries embedded objects (pictures), with the fault that leaves an object half there
             ole = [rng.choice(_ole_obj_streams[name]), rng.choice([ed, ["zerotail", rng.randrange(1 << 30), rng.choice([2, 4, 6, 20, 100, 600])],
@@ -293,7 +303,7 @@ def _execute(case: dict, sbx_dir: str, out: "Outcome") -> "Outcome":
             from sharepoint2text import cli
             so, se = io.StringIO(), io.StringIO()
             out.where = "cli"
-            with contextlib.redirect_stdout(so), contextlib.redirect_stderr(se):
+            with contextlib.redirect_stdout(so), contextlib.redirect_stderr(se), K.fresh_process_diagnostics():
                 out.rc = cli.main([p] + list(case.get("flags") or []))
             out.stdout, out.stderr = so.getvalue(), se.getvalue()
         elif entry in ("archive_zip", "archive_tar"):
